@@ -6,8 +6,11 @@ cd /verif
 git -C /repo diff --quiet || { echo "/repo is not clean"; exit 2; }
 git -C /repo apply $PATCH || exit 2
 for p in "$@"; do
+  cp evidence/$p.json /tmp/evidence_$p.json.keep 2>/dev/null
   out=$(./check $p 2>&1 | grep -E "^(OK|VIOLATION|violation detail|KNOWN)" | tr '\n' ' ')
   echo "$p: $out"
+  # the evidence file of a run against a changed tree is not kept
+  mv /tmp/evidence_$p.json.keep evidence/$p.json 2>/dev/null
 done
 git -C /repo checkout -- .
 # rebuild harness/lean state against the clean tree lazily: the next check does it
